@@ -17,45 +17,52 @@ PROOF_TIMEOUT = {"quick": 1500, "thorough": 3000}
 EXHAUSTIVE = False
 MANIFEST = {
     "category": "proof",
-    "text": "T4 (ideal real-number instance of the regenerated model): Ellipsoid.b/e, Earth.rho_sinphi/rho_cosphi/rp/"
-            "linear_velocity/rm/distance are shown to compute hand-written real functions (bridging lemmas by symbolic "
-            "evaluation of the generated text) about which the identities are proved for EVERY latitude (float, int or "
-            "Angle argument) and EVERY ellipsoid a>0, 0<=f<1 (IAU76/WGS84 as corollaries): meridian ellipse, rp = a rho cos phi', "
-            "rm = b^2/a .. a^2/b monotone, v = omega rp, height term, distance symmetric / 0 for coincident points / a|dlambda| "
-            "on the equator. Binary64: bit-exact correspondence model vs implementation every run. Meridian arc vs integral "
-            "of rm, 0.6 % of great circle and the parallax bounds are searched, not proved.",
+    "text": "T4 (ideal real-number instance of the regenerated model): Ellipsoid.b/e, Earth.set/rho_sinphi/rho_cosphi/rp/"
+            "linear_velocity/rm/distance/parallax_correction are shown to compute hand-written real functions (bridging lemmas "
+            "by symbolic evaluation of the generated text); about these the identities are proved for every ellipsoid a>0, 0<=f<1 "
+            "(IAU76/WGS84 as corollaries) and latitude given as float, int or Angle: meridian ellipse + geocentric direction and "
+            "height term for cos(phi) != 0 (POLES EXCLUDED in the real-number instance: the code goes through tan(phi)); rp = a rho cos phi' "
+            "for |phi| < 90 deg; rm = b^2/a at the equator, a^2/b at +-90 deg, monotone in |phi| (poles included, no tan); v = omega rp; "
+            "distance (four floats or four Angles) symmetric / (0,0) for coincident points / a|dlambda| on the equator; closed forms of "
+            "Earth.distance and Earth.parallax_correction (transcriptions that pin the code); |sin dec' - sin dec| <= 2q/(1-q), "
+            "q = rho sin(8.794'')/distance (vanishes with 1/distance; about twice the horizontal parallax, weaker than the property's bound). "
+            "Binary64 incl. the poles: bit-exact correspondence model vs implementation every run + oracle. Searched, not proved: "
+            "meridian arc vs integral of rm, 0.6 % of great circle, the horizontal-parallax bound, parallax_ecliptical.",
     "technique": "symbolic evaluation (pyrun) of the generated model over Coq reals + real analysis (lra/nra/field, "
                  "Reals trigonometry: cos_atan, atan_tan, sin/cos monotonicity, Rpower) + bit-exact differential "
                  "correspondence + oracle search with independent closed forms, Simpson integration and vector parallax",
     "design_ref": "8/C18",
 }
 EXPLANATION = ("The model of pymeeus.Earth regenerated from /repo is instantiated over Coq's real numbers; bridging lemmas "
-               "(C18_bridge/_rp/_lv/_rm/_dist_f/_dist_a.v, symbolic evaluation of the generated text) show that each method computes a "
-               "hand-written real function of C18_spec.v, where the identities of the property are proved for all latitudes "
-               "and all ellipsoids with a > 0, 0 <= f < 1. Rounding is not covered by the theorems: the binary64 behaviour is tied "
-               "to the same model text by the bit-exact correspondence stage and the clauses are searched on the implementation "
-               "with the property's tolerances.")
+               "(C18_bridge/_rp/_lv/_rm/_dist_f/_dist_a/_par.v, symbolic evaluation of the generated text) show that each method computes a "
+               "hand-written real function of C18_spec.v / C18_par.v, where the identities of the property are proved for all ellipsoids "
+               "with a > 0, 0 <= f < 1 and all latitudes where the code's tan(phi) is defined (cos phi != 0; rm, rp/linear velocity and the "
+               "distance theorems need no such restriction). Earth.distance and Earth.parallax_correction are additionally pinned to closed "
+               "forms (transcriptions). Rounding is not covered by the theorems: the binary64 behaviour, exact poles included, is tied to the "
+               "same model text by the bit-exact correspondence stage and all clauses are searched on the implementation with the "
+               "property's tolerances, with independent closed forms, Simpson integration and a vector computation of the parallax.")
 CLAUSES = {
-    "sea-level point on the meridian ellipse (rho cos phi')^2 + (rho sin phi' a/b)^2 = 1 (every latitude, float/int/Angle, every a>0, 0<=f<1)":
-        "proved [ideal, C18_on_ellipse]; searched in binary64 (1e-12)",
+    "sea-level point on the meridian ellipse (rho cos phi')^2 + (rho sin phi' a/b)^2 = 1, x > 0, tan phi' = (b/a)^2 tan phi (latitudes with cos phi != 0, float/int/Angle, every a>0, 0<=f<1)":
+        "proved [ideal, C18_on_ellipse; POLES EXCLUDED: the code uses tan(phi), which the real-number instance does not define at +-90 deg]; exact poles searched in binary64 (1e-12) + correspondence",
     "parallel radius rp = a * rho cos phi' for |phi| < 90 deg": "proved [ideal, C18_parallel_radius]; searched (1e-12 rel)",
-    "meridian radius of curvature: b^2/a at the equator, a^2/b at the poles, monotone in |phi|":
+    "meridian radius of curvature: b^2/a at the equator, a^2/b at the poles, monotone in |phi| (poles included: rm uses sin only)":
         "proved [ideal, C18_rm_equator, C18_rm_pole, C18_rm_monotone]; searched",
     "linear speed = angular velocity * parallel radius": "proved [ideal, C18_linear_velocity]; searched",
-    "height adds h/a (cos phi, sin phi)": "proved [ideal, C18_height]; searched",
+    "height adds h/a (cos phi, sin phi) (cos phi != 0)": "proved [ideal, C18_height; poles excluded as in C18_on_ellipse]; exact poles searched",
     "Earth.set(E) gives exactly the object Earth(E) (no state besides the ellipsoid)": "proved [ideal, C18_set_ellipsoid]; searched with call sequences (set after use, two objects alive), key set-ellipsoid-identities",
     "built-in ellipsoids IAU76 / WGS84 have the documented constants and are covered": "proved [ideal, C18_builtin]; searched",
     "distance symmetric for all point pairs (four float or four Angle arguments)":
         "proved [ideal, C18_distance_symmetric(_angle); exactly antipodal pairs (c = 0) raise ZeroDivisionError in both orders in the real-number instance; in binary64 c is never 0 there — searched]",
     "distance zero for coincident points": "proved [ideal, C18_distance_coincident]; searched (exact 0.0)",
-    "distance along the equator = a |delta lambda| for 0 < |delta lambda| < 180 deg": "proved [ideal, C18_distance_equator]; searched (1e-12 rel)",
-    "distance = Andoyer's formula of the spec for every float input": "proved [ideal, C18_distance_value]",
+    "distance along the equator = (a |delta lambda|, round(a |delta lambda| f^2)) for 0 < |delta lambda| < 180 deg": "proved [ideal, C18_distance_equator, explicit value]; searched (1e-12 rel)",
+    "distance closed form (pins the code): (0,0) if s = 0, ZeroDivisionError if c = 0, else Andoyer's formula with round(dist f^2, 0), every float input":
+        "proved [ideal, C18_distance_value; the spec `andoyer` is a transcription of the code: it pins the code against change and carries the symmetry/coincident/equator theorems, it is no property by itself]",
     "distance along a meridian = integral of rm (1e-4)": "unproved (searched): needs a quantitative error analysis of Andoyer's first-order formula; Simpson integration of the implementation's rm, built-in ellipsoids 1e-4, user ellipsoids max(1e-4, 3 f^2)",
     "distance within 0.6 % of the great-circle distance": "unproved (searched): trigonometric bound -2f..f on Andoyer's correction not formalised; searched against the sphere of mean radius (2a+b)/3 for the built-in ellipsoids incl. antipodal pairs",
     "parallax_correction closed form (after repairs 5494b49/2d034b9): delta_alpha = atan2(B, A), dec' = atan2(sin d - rho_sin k, hypot(A, B)), WGS84 observer":
-        "proved [ideal, C18_parallax_correction_closed_form; the final right_ascension + delta_alpha is left as the model's Angle.__add__]",
+        "proved [ideal, C18_parallax_correction_closed_form; closed form (pins the code): a transcription of the repaired code, no property by itself; Angle arguments, float distance != 0 and height, observer latitude with cos != 0; the final right_ascension + delta_alpha is left as the model's Angle.__add__]",
     "parallax correction in declination tends to 0 as distance grows: |sin dec' - sin dec| <= 2q/(1-q), q = rho sin(8.794'')/distance":
-        "proved [ideal/spec, C18_parallax_declination_bound, every declination and hour angle, poles included]",
+        "proved [spec function topo_dec, tied to the code by C18_parallax_correction_closed_form; every declination of the body and hour angle; 2q/(1-q) is about TWICE the horizontal parallax: weaker than the property's bound, it only shows the 1/distance decay]",
     "parallax corrections stay below the horizontal parallax asin(rho sin 8.794''/distance); parallax_ecliptical; right-ascension correction":
         "unproved (searched): both functions are compared with an independent vector computation (1e-9 rad) and with the bound asin(rho sin 8.794''/Delta), rho = geocentric distance of the observer (1 at sea level on the equator)",
     "binary64 rounding of all of the above": "unproved (searched); correspondence stage ties binary64 runs to the model text bit for bit",
